@@ -5,6 +5,8 @@ EXTENDS Integers, Sequences, FiniteSets, TLC, Json, IOUtils, SequencesExt, Rando
 Thorough == "TIER" \in DOMAIN IOEnv /\ IOEnv.TIER = "thorough"
 Sub(S, n) == IF Thorough \/ Cardinality(S) <= n THEN S ELSE RandomSubset(n, S)
 Cases == {[op |-> "serial", ts |-> <<a>>] : a \in Pool} \cup {[op |-> "serial", ts |-> <<a, b, c>>] : a, b, c \in Sub(Pool, 9)}
+         \cup {[op |-> "serial", ts |-> <<CDs[i], CDs[j], CDs[k], B("add", CDs[j], x)>>] : i, j, k \in 1..Len(CDs)}
+         \cup {[op |-> "serial", ts |-> <<a, b>>] : a, b \in Inexact}
          \cup {[op |-> "serial", ts |-> <<TOp(k, <<a, b>>)>>] : k \in {"add", "mul", "pow"}, a \in Sub(Pool \ (Rel \cup Logic \cup Sets), 25), b \in Sub(Nums \cup Funs, 12)}
 ASSUME PrintT(<<"cases", Cardinality(Cases)>>)
 ASSUME ndJsonSerialize(IOEnv.OUT, SetToSeq(Cases))
